@@ -106,6 +106,24 @@ func ruleFuncMap(c *Ctx, r *Repo, rule string) {
 			}
 			c.Check(good, rule, "FuncMap|wrapper|"+k, pos, k+" = "+want+" with the subject string as last argument", fmt.Sprintf("template function %q must be exactly %s with the subject as its last argument and the other arguments in order; found %s", k, want, detail))
 		default:
+			if call, isCall := e.(*ast.CallExpr); isCall && wrappers[k] && len(call.Args) == 1 {
+				// <swap>(strings.X) where swap turns f(subject, arg) into g(arg, subject)
+				want := "strings." + strings.ToUpper(k[:1]) + k[1:]
+				got := ""
+				switch y := ast.Unparen(call.Args[0]).(type) {
+				case *ast.SelectorExpr:
+					if f, ok := info.Uses[y.Sel].(*types.Func); ok {
+						got = f.FullName()
+					}
+				}
+				fn := calleeFunc(info, call)
+				good := fn != nil && isArgSwapper(p, pkgFuncs(p)[fn]) && got == want
+				if sig, ok := info.TypeOf(call.Args[0]).(*types.Signature); !ok || sig.Params().Len() != 2 {
+					good = false
+				}
+				c.Check(good, rule, "FuncMap|wrapper|"+k, pos, k+" = "+want+" with the subject string as last argument", fmt.Sprintf("template function %q must be exactly %s with the subject as its last argument and the other arguments in order; found %s", k, want, types.ExprString(e)))
+				continue
+			}
 			want, ok := funcMapDirect[k]
 			if !ok {
 				c.Fail(rule, "FuncMap|undocumented-key|"+k, pos, "FuncMap["+k+"] is not in the documented table")
@@ -382,6 +400,12 @@ func ruleRunes(c *Ctx, r *Repo) {
 				}
 				allowed := map[string]bool{`""`: true, "INIT": true, "ARG0": true,
 					"string(unicode.ToUpper(unicode/utf8.DecodeRuneInString(ARG0)#0)) + ARG0[unicode/utf8.DecodeRuneInString(ARG0)#1:]": true}
+				if q.Ret[0] == "strings.ToUpper(ARG0)" {
+					// the upper-cased input itself, when it was found in the initialism list
+					if v, has := q.atom("slices.Contains(golintInitialisms, strings.ToUpper(ARG0))"); has && v {
+						continue
+					}
+				}
 				if !allowed[q.Ret[0]] {
 					ok = false
 					c.Fail("R16.3", "Exported|return|"+q.Ret[0], r.Pos(q.RetPos), "Exported returns "+q.Ret[0]+" on path "+q.String()+"; allowed results: \"\", the matching initialism, the input (invalid UTF-8), upper-cased first rune + rest")
